@@ -2,6 +2,8 @@ package main
 
 import (
 	"fmt"
+	"os"
+	"runtime/debug"
 	"go/token"
 	"go/types"
 	"sort"
@@ -64,6 +66,9 @@ func (fc *FnCtx) Generate() (err error) {
 	defer func() {
 		if r := recover(); r != nil {
 			if be, ok := r.(bindError); ok {
+				if os.Getenv("GVC_DEBUG") != "" {
+					debug.PrintStack()
+				}
 				err = be
 				return
 			}
